@@ -38,6 +38,9 @@ CHECKS['C06'] = ('property-based testing with a differential oracle: interpreter
 CHECKS['C16'] = ('property-based testing with a differential oracle: the same case serialized by both paths (guarded threshold hook), raw flatbuffer parse, byte-level comparison, interpreter outputs',
   'Every generated (model, recipe) case is quantized twice through the public API, once normally and once with the guarded hook forcing the external-buffer serializer; both results are raw-parsed (offset/size preserved): all fields must be equal except buffer data/offset/size, every external range must be 16-byte aligned, in bounds, pairwise disjoint, outside the flatbuffer proper (the prefix up to the first external byte parses to the same model) and byte-equal to the embedded data; both forms must load in the interpreter and give bit-identical outputs.',
   'The real > 2 GB sizes are not exercised, only the code path; interpreter trusted.', 'DESIGN.md 4 C16')
+CHECKS['C12'] = ('property-based testing: generated update/load histories, JSON round-trip oracle (equal recipe, equal resolution grid, byte-identical quantize output, save() contents) + enumeration of shipped recipe files',
+  'Recipes reachable by generated update/load sequences (all algorithms, skip_checks, enum- or string-valued arguments, default config, no_quantize rules with a config) are exported, passed through json.dumps/loads and loaded into a fresh Quantizer: the exported recipes must be equal, resolve identically on a 6x8 (operator, scope) grid, and quantize a generated model with the same statistics to byte-identical output; save() must write exactly that JSON and model. Every file under recipes/ must load and the default files must re-export to themselves (complete enumeration).',
+  'Recipe equality is judged on the JSON level (what save() writes).', 'DESIGN.md 4 C12')
 NOT_APPLICABLE = {}
 
 def main():
